@@ -96,6 +96,7 @@ func plans(r *ev.Run) []plan {
 	}
 	add(true, "core", 5, 2, true, roleP, roleN)         // the real walstore on crashfs
 	add(false, "core", 6, 3, true, roleP, roleN, roleM) // reference WAL, one more input
+	add(false, "core", 7, 3, true, roleP)               // proposer role: length 7 over the same alphabet
 	add(false, "mini", 7, 3, false, roleP, roleN)       // length 7 over the smallest alphabet that still commits
 	add(false, "wide", 4, 2, true, roleP, roleN, roleM) // every (height, round, kind, value) symbol + invalid / re-proposal
 	// extra: an Application whose Valid() forgets across incarnations (see appAmnesic)
